@@ -1132,13 +1132,25 @@ func c20FilesImmutable(r *Report, rule string) {
 	if !r.Anchor(rule, "tor.Torrent.Files", filesF != nil) {
 		return
 	}
-	// aliases: values that denote the table or a part of it
+	// aliases: values that denote the table or a part of it — also after travelling through a struct field (the path of
+	// a fileChunk) or a parameter (the `file []string` of Webseed.Get): both sets are computed to a fixpoint below
+	carrier := map[*types.Var]bool{}
+	tainted := map[*ssa.Parameter]bool{}
 	var isTable func(v ssa.Value, d int) bool
 	isTable = func(v ssa.Value, d int) bool {
 		if d > 6 || v == nil {
 			return false
 		}
-		if fv, _ := loadedField(v); fv == filesF {
+		if fv, _ := loadedFieldAny(v); fv != nil && (fv == filesF || carrier[fv]) {
+			return true
+		}
+		// a parameter that lives in a cell because a closure captures it
+		if ld, ok := v.(*ssa.UnOp); ok {
+			if prm := paramCell(ld); prm != nil {
+				v = prm
+			}
+		}
+		if prm, ok := v.(*ssa.Parameter); ok && tainted[prm] {
 			return true
 		}
 		switch x := v.(type) {
@@ -1157,6 +1169,18 @@ func c20FilesImmutable(r *Report, rule string) {
 					if ia, ok := fa.X.(*ssa.IndexAddr); ok {
 						return isTable(ia.X, d+1)
 					}
+					// … of a local copy of an element (the range variable f lives in a cell)
+					if al, ok := fa.X.(*ssa.Alloc); ok {
+						for _, ref := range *al.Referrers() {
+							if st, isSt := ref.(*ssa.Store); isSt && st.Addr == ssa.Value(al) {
+								if ld, isLd := st.Val.(*ssa.UnOp); isLd && ld.Op == token.MUL {
+									if ia, isIA := ld.X.(*ssa.IndexAddr); isIA && isTable(ia.X, d+1) {
+										return true
+									}
+								}
+							}
+						}
+					}
 				}
 			}
 		case *ssa.Field:
@@ -1168,6 +1192,69 @@ func c20FilesImmutable(r *Report, rule string) {
 			}
 		}
 		return false
+	}
+	// fixpoint: which fields and parameters can hold (a part of) the table
+	var scope []*ssa.Function
+	for _, f := range p.SrcFuncs() {
+		pk := relPkg(f)
+		if pk == "tor" || pk == "http" || pk == "fuse" || pk == "webseed" || pk == "" {
+			scope = append(scope, f)
+		}
+	}
+	methodsNamed := map[string][]*ssa.Function{}
+	for _, f := range scope {
+		if f.Signature.Recv() != nil {
+			methodsNamed[f.Name()] = append(methodsNamed[f.Name()], f)
+		}
+	}
+	isSliceOfStrings := func(t types.Type) bool {
+		sl, ok := t.Underlying().(*types.Slice)
+		if !ok {
+			return false
+		}
+		b, okb := sl.Elem().Underlying().(*types.Basic)
+		return okb && b.Info()&types.IsString != 0
+	}
+	for iter := 0; iter < 6; iter++ {
+		changed := false
+		for _, f := range scope {
+			allInstrs(f, func(in ssa.Instruction) {
+				switch x := in.(type) {
+				case *ssa.Store:
+					if fa, ok := x.Addr.(*ssa.FieldAddr); ok && isSliceOfStrings(x.Val.Type()) && isTable(x.Val, 0) {
+						if fv := fieldVar(fa); fv != nil && fv != filesF && !carrier[fv] {
+							carrier[fv] = true
+							changed = true
+						}
+					}
+				case ssa.CallInstruction:
+					com := x.Common()
+					var callees []*ssa.Function
+					off := 0
+					if com.IsInvoke() {
+						callees = methodsNamed[com.Method.Name()]
+						off = 1
+					} else if h := com.StaticCallee(); h != nil && h.Blocks != nil {
+						callees = []*ssa.Function{h}
+					}
+					for ai, a := range com.Args {
+						if !isSliceOfStrings(a.Type()) || !isTable(a, 0) {
+							continue
+						}
+						for _, h := range callees {
+							k := ai + off
+							if k < len(h.Params) && !tainted[h.Params[k]] && isSliceOfStrings(h.Params[k].Type()) {
+								tainted[h.Params[k]] = true
+								changed = true
+							}
+						}
+					}
+				}
+			})
+		}
+		if !changed {
+			break
+		}
 	}
 	n := 0
 	mutators := map[string]bool{"sort.Slice": true, "sort.SliceStable": true, "sort.Sort": true, "sort.Stable": true, "slices.Sort": true, "slices.SortFunc": true, "slices.SortStableFunc": true, "slices.Reverse": true}
